@@ -65,11 +65,15 @@ void harness(void)
 
 	ssize_t rc = qb_ipc_us_recv_at_most(&ow, buf, nd_len, nd_timeout);
 
+#ifdef V_FITS
 	COVER(rc > 0);
 	COVER(rc > 0 && (size_t)rc < nd_dgram_len);
+	COVER(rc > 0 && nd_dgram_len < (size_t)nd_hdr_size);
+#else
+	COVER(rc == -EMSGSIZE);   /* a datagram whose header claims more than the buffer is dropped */
+#endif
 	COVER(rc == -ETIMEDOUT);
 	COVER(rc == -ENOTCONN);
-	COVER(rc > 0 && nd_dgram_len < (size_t)nd_hdr_size);
 	POST(rc <= (ssize_t)nd_len, "the received length never exceeds the receive buffer (negotiated maximum)");
 	POST(rc <= 0 || (size_t)rc <= nd_dgram_len, "the received length never exceeds what was actually received");
 	if (rc > 0) {
